@@ -38,6 +38,10 @@ def run(chk, replay=None):
         if f.endswith(".simf"):
             progs.append(Prog(open(os.path.join(ex, f)).read(), [], "example/" + f))
     progs += corelib.gen_programs(chk, 40 if quick else 400, "gdet", size=40, allow_params=False)
+    # large programs: encodings of several KiB up to ~100 KiB (output buffering, pipe writes), with many tracked calls
+    for n in ((70, 350) if quick else (70, 200, 350, 1200, 4000)):
+        body = " ".join("assert!(jet::eq_32(%d, %d)); let v%d: u32 = dbg!(%d);" % (k, k, k, k) for k in range(n))
+        progs.append(Prog("fn main() { %s }" % body, [], "large/%d" % n))
     progs += [Prog("fn main() { let x: u8 = y; }", [], "bad/undefined"), Prog("fn main() {", [], "bad/grammar"), Prog("", [], "bad/empty")]
     nproc = 8 if quick else 24
     for dbg in (0, 1):
